@@ -24,7 +24,7 @@ RULE = ("(a) exhaustive: every flow grid of shape 1x1..2x2 (thorough adds "
         "with >= 2 cells upstream.")
 
 
-def run_accumulate(fd, field, nodata, fdtype, nprint, cap):
+def run_accumulate(fd, field, nodata, fdtype, nprint, cap, bounds=False):
     nr, nc = fd.shape
     g = Grid("fd", nc, nr, dtype=fdtype)
     g.data = fd.astype(fdtype)
@@ -32,12 +32,17 @@ def run_accumulate(fd, field, nodata, fdtype, nprint, cap):
     if field is not None:
         ta = Grid("ta", nc, nr, dtype=field.dtype.type, nodata=nodata)
         ta.data = field
+        if bounds:
+            # declared valid range of the field itself (it does not alter
+            # the field): sums may leave it, no-data may lie outside it
+            ta.mindata = field.min()
+            ta.maxdata = field.max()
     acc = accumulate(g, ta, nprint=nprint, max_accumulated_cells=cap)
     return g, ta, acc
 
 
 def check(fd, field, nodata, fdtype=np.int64, nprint=100, cap=-1,
-          labels=None):
+          labels=None, bounds=False):
     """Returns the non-triviality flag."""
     quiet()
     nr, nc = fd.shape
@@ -49,7 +54,8 @@ def check(fd, field, nodata, fdtype=np.int64, nprint=100, cap=-1,
     f0 = None if field is None else field.copy()
     capped = cap != -1
     try:
-        g, ta, accg = run_accumulate(fd, field, nodata, fdtype, nprint, cap)
+        g, ta, accg = run_accumulate(fd, field, nodata, fdtype, nprint, cap,
+                                     bounds)
     except ValueError as e:
         if anycyc or capped:
             if labels is not None:
@@ -106,6 +112,7 @@ def exhaustive_oracle(case):
     field = np.array([(-1.0) ** c * 3.0 ** c for c in range(fd.size)]
                      ).reshape(nr, nc)
     nt = check(fd, field, -9999., labels=labels)
+    check(fd, np.abs(field), -1., labels=labels, bounds=True)
     return {"nt": nt, "labels": sorted(labels)}
 
 
@@ -148,6 +155,7 @@ def random_case(draw, tier):
                                         "float64"]))
     c["nprint"] = draw(st.sampled_from([0, 1, 100]))
     c["cap"] = draw(st.sampled_from([-1] * 21 + [0, 1, 3]))
+    c["bounds"] = draw(st.booleans())
     return c
 
 
@@ -164,7 +172,10 @@ def random_oracle(case):
     if case["fkind"] == "int" and np.isnan(nodata):
         nodata = -9999.
     nt = check(fd, field, nodata, fdtype=np.dtype(case["fdtype"]).type,
-               nprint=case["nprint"], cap=case["cap"], labels=labels)
+               nprint=case["nprint"], cap=case["cap"], labels=labels,
+               bounds=case.get("bounds", False))
+    if case.get("bounds") and field is not None:
+        labels.add("field-with-data-bounds")
     if case["cap"] != -1:
         labels.add("capped")
     return {"nt": nt, "labels": sorted(labels)}
